@@ -183,3 +183,56 @@ class K04f(Harness):
         if detail.get("kind") == "exception":
             return "exception:%s@%s" % (detail.get("type"), __import__("re").sub(r":\d+:", ":", (detail.get("where") or ["?"])[-1]))
         return "vc:" + ",".join(detail.get("failed", []))
+
+
+@register
+class K04g(Harness):
+    name = "K04g"
+    prop = "C04"
+    title = "the classifier's token builders that split one lexical token into several (selected names of use clauses and context references) keep its text: emitting the parsed file gives back the lines read, for every number of name parts"
+    functions = ("vsg.vhdlFile.classify.utils", "vsg.vhdlFile.classify.use_clause", "vsg.vhdlFile.classify.context_reference", "vsg.vhdlFile.vhdlFile", "vsg.tokens")
+    bounds = "a design file 'library work; use <name>;' resp. 'library work; context <name>;' whose selected name has 2..5 (use) / 1..5 (context) parts, each part drawn from {work, P2, all}, the last part of a use name also an operator symbol (\"and\"); thorough adds a second name (2..4 parts) in the same use clause"
+    outside = "longer names; selected names elsewhere in the grammar (they stay one token: K04a/L04)"
+    allowed_exceptions = ()
+
+    def params(self, tier):
+        return [{"which": "use"}, {"which": "context"}] if tier == "quick" else [{"which": "use"}, {"which": "context"}, {"which": "use", "two": True}]
+
+    def shard_target(self, p):
+        return 32
+
+    def run(self, eng, p):
+        import vsg.vhdlFile.vhdlFile  # noqa: F401
+        from vsg import exceptions, parser, vhdlFile as vhdlFile_pkg
+
+        words = ["work", "P2", "all"]
+
+        def name(tag, lo, hi, last_extra=()):
+            k = lo + eng.choose("parts_" + tag, hi - lo + 1)
+            parts = []
+            for i in range(k):
+                pal = words + (list(last_extra) if i == k - 1 else [])
+                parts.append(pal[eng.choose("w_%s%d" % (tag, i), len(pal))])
+            return ".".join(parts)
+
+        if p["which"] == "use":
+            u = name("u", 2, 5, last_extra=('"and"',))
+            if p.get("two"):
+                u = u + ", " + name("v", 2, 4)
+            lines = ["library work;", "use " + u + ";", ""]
+        else:
+            lines = ["library work;", "context " + name("c", 1, 5) + ";", ""]
+        try:
+            o = vhdlFile_pkg.vhdlFile(list(lines))
+        except exceptions.ClassifyError:
+            return True  # rejected with a syntax message: outside C04's quantifier (accepted files)
+        out = o.get_lines()[1:]
+        return [("C04:emit_equals_input", out == lines), ("C04:every_token_classified", not any(type(t) is parser.item for t in o.lAllObjects))]
+
+    def describe(self, values, p):
+        return dict(values)
+
+    def signature(self, values, p, detail):
+        if detail.get("kind") == "exception":
+            return "exception:%s" % detail.get("type")
+        return "vc:" + ",".join(sorted(detail.get("failed", [])))
